@@ -22,8 +22,9 @@ SLICE_K = 101
 def run(tier, seed):
     tier = "quick" if tier != "thorough" else "thorough"
     sp = D.spelling(seed)
-    specs = D.family_specs(tier)
-    fams = {n: D.enumerate_trees(spec, sp["names"]) for n, spec in specs.items()}
+    specs = dict(D.family_specs(tier), **D.FIXED_SPECS)
+    D._W["sp"] = sp
+    fams = {n: D.enumerate_trees(spec, D.fam_spelling(n)[0]) for n, spec in specs.items()}
     items = [(n, i) for n, ts in fams.items() for i in range(len(ts))]
     t0 = time.time()
     with parallel.make_pool("mc.c18_diff", {"tier": tier, "seed": seed, "slice_k": SLICE_K}) as pool:
